@@ -89,10 +89,6 @@ impl GBuf {
         Self { block, cap, len: data.len(), len0: data.len(), overlen: None }
     }
 
-    pub fn len(&self) -> usize {
-        self.len
-    }
-
     pub fn cap(&self) -> usize {
         self.cap
     }
